@@ -9,12 +9,13 @@ Full-strength statements (what the property says):
   violation_rejected  :  Reach specAct d n → rulesOK o n = false → validate codeTable o d = false
   edges_cover         :  ∀ e ∈ specEdges, the table has an unconditional, error-propagating edge for e
 
-The last two do not hold of the code as it is: four exclusion classes (each with a kernel-checked witness
+The last two do not hold of the code as it is: five exclusion classes (each with a kernel-checked witness
 below, each replayed against the real code from corpus/C04/):
   * excl7Node          (DESIGN §7 #7)   template variable names compared only when the counts differ;
   * exclBelow [(schema, xml), (schema, discriminator)]  (§7 #28, what is left of it) `xml` and `discriminator`
                         objects are never validated;
   * exclInnerNode      sibling keys of a `$ref` inside a schema are never looked at;
+  * exclBelow [(pathItem, servers), (operation, servers)]  the `servers` of a path item / an operation are never validated;
   * exclEncNode / exclBelow [(encoding, headers)]  `Encoding.Validate` answers nil as soon as one of its headers
                         fails: the header's violation is dropped and the encoding object's own violations
                         are masked.
@@ -50,7 +51,12 @@ theorem code_facts :
     (validate codeTable {} W.dEncHeader = true ∧ specVerdict {} W.dEncHeader = .reject ∧
       anyNode (exclEncNode codeTable {}) W.dEncHeader = true ∧ anyNode (exclBelow knownUncovered {}) W.dEncHeader = true ∧
       validate codeTable {} W.dEncMasked = true ∧ specVerdict {} W.dEncMasked = .reject ∧
-      anyNode (exclEncNode codeTable {}) W.dEncMasked = true) := by
+      anyNode (exclEncNode codeTable {}) W.dEncMasked = true) ∧
+    -- 7b
+    (validate codeTable {} W.dOpServer = true ∧ specVerdict {} W.dOpServer = .reject ∧
+      anyNode (exclBelow knownUncovered {}) W.dOpServer = true ∧
+      validate codeTable {} W.dPathItemServer = true ∧ specVerdict {} W.dPathItemServer = .reject ∧
+      anyNode (exclBelow knownUncovered {}) W.dPathItemServer = true) := by
   decide +kernel
 
 /-- the closed facts about the former witnesses (repaired defects) and the non-vacuity documents -/
@@ -107,7 +113,8 @@ the only errors a method drops are those of the headers of an encoding object -/
 theorem table_ok : TableOK codeTable = true := code_facts.2.1
 
 /-- `edges_cover` (partial): of the containment edges named by the property, the code lacks exactly
-`schema → xml`, `schema → discriminator` (never called) and `encoding → headers` (called, error dropped);
+`pathItem → servers`, `operation → servers`, `schema → xml`, `schema → discriminator` (never called) and
+`encoding → headers` (called, error dropped);
 every other one is followed unconditionally and its error returned -/
 theorem edges_cover_partial : uncovered codeTable = knownUncovered := code_facts.2.2.1
 
@@ -201,8 +208,8 @@ theorem conforming_accepted (T : Table) (o : Opts) (d : Doc) (hT : TableOK T = t
 
 /-- **C04 (b), partial.** If some node reachable through the property's containment relation violates a
 rule that is in force, the document is rejected — provided no node reachable that way is in an exclusion
-class (`exclNode`: #7, xml / discriminator objects, inner `$ref` siblings, encoding objects with a failing
-header). Holds for every document, every location and every option set. -/
+class (`exclNode`: #7, servers of path items / operations, xml / discriminator objects, inner `$ref` siblings,
+encoding objects with a failing header). Holds for every document, every location and every option set. -/
 theorem violation_rejected_partial (T : Table) (o : Opts) (d n : Doc) (hT : TableOK T = true)
     (hr : Reach specAct d n) (hbad : rulesOK o n = false)
     (hex : ∀ m, Reach specAct d m → exclNode T (uncovered T) o m = false) : validate T o d = false := by
@@ -359,7 +366,15 @@ theorem witness_encoding_header_error_dropped :
     validate codeTable {} W.dEncHeader = true ∧ specVerdict {} W.dEncHeader = .reject ∧
       anyNode (exclEncNode codeTable {}) W.dEncHeader = true ∧ anyNode (exclBelow knownUncovered {}) W.dEncHeader = true ∧
       validate codeTable {} W.dEncMasked = true ∧ specVerdict {} W.dEncMasked = .reject ∧
-      anyNode (exclEncNode codeTable {}) W.dEncMasked = true := code_facts.2.2.2.2.2.2
+      anyNode (exclEncNode codeTable {}) W.dEncMasked = true := code_facts.2.2.2.2.2.2.1
+
+/-- a server object without `url` under an operation, and one with an undeclared variable under a path item,
+are accepted (`Operation.Validate` / `PathItem.Validate` never look at `servers`); the property rejects them -/
+theorem witness_nested_servers_unchecked :
+    validate codeTable {} W.dOpServer = true ∧ specVerdict {} W.dOpServer = .reject ∧
+      anyNode (exclBelow knownUncovered {}) W.dOpServer = true ∧
+      validate codeTable {} W.dPathItemServer = true ∧ specVerdict {} W.dPathItemServer = .reject ∧
+      anyNode (exclBelow knownUncovered {}) W.dPathItemServer = true := code_facts.2.2.2.2.2.2.2
 
 /-! ### Regression theorems: former witnesses of repaired defects (model = specification on them; the inputs
 stay in corpus/C04, so a regression of the code is reported with that input) -/
